@@ -842,8 +842,13 @@ send_response:
 		if err != nil {
 			// Note: for h2/spdy protocol, not close client conn when send
 			// response error. h2/spdy module will close conn/stream properly
+			// The response was cut short (backend failed or was cancelled
+			// mid-body, or the client can not be written to): close the
+			// connection as it is. Finishing the response would end a
+			// chunked body with its terminator and present the partial
+			// body to the client as a complete one.
 			if !CheckSupportMultiplex(basicReq.Session.Proto) {
-				action = closeAfterReply
+				action = closeDirectly
 			}
 			basicReq.ErrCode = bfe_basic.ErrClientWrite
 			basicReq.ErrMsg = err.Error()
